@@ -222,3 +222,79 @@ def grid_kinetics_ref(w, h, d, bc, i):
             if nb is not None:
                 want[c] += k * (x[nb] - x[c])
     return all(abs(a - b) <= 1e-9 * (1 + abs(b)) for a, b in zip(got, want))
+
+
+def _space_view(sp):
+    """everything the geometry queries of a space answer, in plain numbers"""
+    n = sp.size()
+    va, ea = sp.get_cell_vol_array(), sp.get_cell_env_array()
+    out = {"n": n, "vol": [float(v) for v in va.value], "vol_units": str(va.units), "env": [int(e) for e in ea],
+           "vol1": [float(sp.get_cell_vol(i).value) for i in range(n)], "env1": [int(sp.get_cell_env(i)) for i in range(n)],
+           "nb": [sorted(int(j) for j in sp.get_neighbors(i)) for i in range(n)],
+           "are": [[bool(sp.are_neighbors(i, j)) for j in range(n) if j != i] for i in range(n)]}
+    if hasattr(sp, "get_edge"):
+        ed = []
+        for i in range(n):
+            for j in out["nb"][i]:
+                e = sp.get_edge(i, j)
+                ed.append((i, j, float(e.surface.value), str(e.surface.units), float(e.distance.value), str(e.distance.units)))
+        out["edges"] = ed
+    return out
+
+
+def space_after_edit(kind, how):
+    """A space object that has already answered every geometry query is EDITED (grid: cell volume, environment map, units system,
+    boundary conditions; graph: a node's volume / environment, an edge's surface / distance, several of them, the
+    units system) and must then answer like a space built afresh with the edited content."""
+    from strengths.rdgraphspace import RDGraphSpaceNode as N_, RDGraphSpaceEdge as E_
+    from strengths.units import UnitsSystem
+    other = UnitsSystem("nm", "ms", "mmol")
+    if kind == 0:
+        g = RDGridSpace(w=3, h=2, d=1, cell_env=[0, 1, 0, 1, 1, 0], cell_vol=8, boundary_conditions={"x": "periodical"})
+        _space_view(g)
+        env, vol, bc, us = [0, 1, 0, 1, 1, 0], 8, {"x": "periodical"}, UnitsSystem()
+        if how == 0:
+            vol = 27.0
+            g.cell_vol = vol
+        elif how == 1:
+            env = [1, 1, 0, 0, 1, 0]
+            g.cell_env = list(env)
+        elif how == 2:
+            us = other                       # the default for LATER bare numbers changes; the stored volume keeps its own units
+            vol = "8 µm3"
+            g.units_system = other.copy()
+        elif how == 3:
+            bc = {"x": "reflecting", "y": "periodical", "z": "reflecting"}
+            g.set_boundary_conditions(dict(bc))
+        else:
+            vol, env = 5.0, [0, 0, 0, 1, 1, 1]
+            g.cell_env = list(env)
+            g.cell_vol = vol
+        fresh = RDGridSpace(w=3, h=2, d=1, cell_env=list(env), cell_vol=vol, boundary_conditions=dict(bc), units_system=us.copy())
+        return _space_view(g) == _space_view(fresh)
+    nodes = [[2.0, 0], [3.0, 1], [5.0, 0], [7.0, 1]]
+    edges = [[0, 1, 2.0, 3.0], [1, 2, 5.0, 7.0], [2, 3, 1.5, 2.5]]
+    us = UnitsSystem()
+    g = RDGraphSpace(nodes=[N_(v, e) for v, e in nodes], edges=[E_(*e) for e in edges])
+    _space_view(g)
+    if how == 0:
+        nodes[2][0] = 11.0
+        g.nodes[2].volume = 11.0
+    elif how == 1:
+        nodes[1][1] = 0
+        g.nodes[1].environment = 0
+    elif how == 2:
+        edges[1][2], edges[1][3] = 13.0, 17.0
+        g.edges[1].surface = 13.0
+        g.edges[1].distance = 17.0
+    elif how == 3:
+        nodes[0][0], nodes[3][1], edges[0][2], edges[2][3] = 19.0, 0, 4.0, 4.5
+        g.nodes[0].volume = 19.0
+        g.nodes[3].environment = 0
+        g.edges[0].surface = 4.0
+        g.edges[2].distance = 4.5
+    else:
+        us = other
+        g.units_system = other.copy()
+    fresh = RDGraphSpace(nodes=[N_(v, e) for v, e in nodes], edges=[E_(*e) for e in edges], units_system=us.copy())
+    return _space_view(g) == _space_view(fresh)
